@@ -3,16 +3,21 @@
 // own tcpPlayerConn (GetNextMessage framing), SessionsImpl + ClientSessions drained
 // by sche.Handler.  One op = one whole connection:
 //
-//	reset-tcp pk=<pk,pk,..> tail=<hex> [lens=<body length of every packet> cut=<byte offsets>]
+//	reset-tcp pk=<pk,pk,..> tail=<hex> [lens=<body length of every packet> cut=<byte offsets>] [passive=1]
 //
 // the client writes the packets, then the raw tail bytes, then half-closes and
 // reads until the server closes.  `cut`: the byte stream does not arrive in one
 // piece: the client pauses at each of these offsets of the stream (TCP segmentation:
 // a header split from its body, a body in two halves, two packets glued together);
 // `b<mid>` is a data packet with a body larger than the socket buffers.  `lens` (the
-// body lengths as encoded) lets the model frame the same stream byte for byte.  Observation (after everything settled):
+// body lengths as encoded) lets the model frame the same stream byte for byte.  `passive=1`: the client does NOT
+// half-close and never closes first: it keeps its side open and silent; the connection is ended by the server - by the
+// reader when the stream ends in a malformed header, otherwise by an owner-side kick (ClientSessions.Kick posted to the
+// owner's scheduler) once the owner has seen every data message of the script; goroutines are counted while the client's
+// socket is still open, then the client writes again: a socket that was really closed answers with a reset (`rel`).
+// Observation (after everything settled):
 //
-//	ev=<A M.. R>,ow=<a m.. r11>,eof=<client saw the server close>,g=<goroutines left>
+//	ev=<A M.. R>,ow=<a m.. r11>,eof=<client saw the server close>,g=<goroutines left>[,rel=<the server's socket is gone>]
 package c05
 
 import (
@@ -52,6 +57,8 @@ type tcpEnv struct {
 	real pi.IClientSessionImpl
 	hc   *impls.HandlerComponent
 	cbH  int
+	sc   *sche.Sche
+	css  *impls.ClientSessions
 }
 
 func (e *tcpEnv) OnSessionCreate(s pi.IClientSession) {
@@ -135,6 +142,7 @@ func newAccEnv(a acceptor.Acceptor) *tcpEnv {
 		e.mu.Unlock()
 	})
 	e.real = pomelo.NewSessionsImpl(sc, css)
+	e.sc, e.css = sc, css
 	go sc.Handler()
 	cfg := session.NewSessionConfig(nil)
 	cfg.Impl = e
@@ -186,8 +194,112 @@ func (e *tcpEnv) exec(op string) string {
 			prev = n
 		}
 	}
-	return e.runConn(func() (net.Conn, error) { return net.Dial("tcp", e.addr) }, func(conn net.Conn) { e.sendCut(conn, data, cuts) })
+	send := func(conn net.Conn) { e.sendCut(conn, data, cuts) }
+	if v, _ := hx.KV(ws, "passive"); v == "1" {
+		want := 0
+		if v, _ := hx.KV(ws, "pk"); v != "" {
+			for _, w := range strings.Split(v, ",") {
+				if strings.HasPrefix(w, "d") || strings.HasPrefix(w, "b") {
+					want++
+				}
+			}
+		}
+		return e.runConnPassive(func() (net.Conn, error) { return net.Dial("tcp", e.addr) }, send, want)
+	}
+	return e.runConn(func() (net.Conn, error) { return net.Dial("tcp", e.addr) }, send)
 }
+
+// logs of the connection being run
+func (e *tcpEnv) logs() (s pi.IClientSession, ev, ow []string) {
+	e.mu.Lock()
+	defer e.mu.Unlock()
+	s = e.last
+	if s != nil {
+		ev, ow = append([]string(nil), e.ev[s]...), append([]string(nil), e.ow[s]...)
+	}
+	return
+}
+
+// runConnPassive: one whole connection of a client that sends its stream and then keeps its side open and silent; the
+// server ends it
+func (e *tcpEnv) runConnPassive(dial func() (net.Conn, error), send func(net.Conn), want int) string {
+	e.mu.Lock()
+	e.last = nil
+	e.mu.Unlock()
+	base := runtime.NumGoroutine()
+	conn, err := dial()
+	if err != nil {
+		return "dial-failed"
+	}
+	defer conn.Close()
+	send(conn)
+	// the owner has seen the add and every data message of the script (or the server has ended the connection by itself)
+	var s pi.IClientSession
+	for i := 0; i < tcpPassivePolls; i++ {
+		var ev, ow []string
+		s, ev, ow = e.logs()
+		nm := 0
+		for _, t := range ow {
+			if strings.HasPrefix(t, "m") {
+				nm++
+			}
+		}
+		if s != nil && (len(ev) > 0 && ev[len(ev)-1] == "R" || (len(ow) > 0 && nm >= want)) {
+			break
+		}
+		time.Sleep(2 * time.Millisecond)
+	}
+	if s == nil {
+		return "no-session"
+	}
+	// the owner kicks the session (nothing happens when the reader has already ended it)
+	e.sc.Post(func() { e.css.Kick(s.GetId()) })
+	eof := 0
+	conn.SetReadDeadline(time.Now().Add(tcpReadWait))
+	if _, err := io.Copy(io.Discard, conn); err == nil {
+		eof = 1
+	} else if ne, ok := err.(net.Error); !ok || !ne.Timeout() {
+		eof = 1
+	}
+	// everything of the connection is released although the client has not closed its side
+	var ev, ow string
+	g := 0
+	settled := false
+	for i := 0; i < tcpPolls; i++ {
+		_, evl, owl := e.logs()
+		ev, ow = strings.Join(evl, ""), strings.Join(owl, "")
+		g = runtime.NumGoroutine() - base
+		if strings.HasSuffix(ev, "R") && strings.HasSuffix(ow, "r11") && g <= 0 {
+			settled = true
+			break
+		}
+		time.Sleep(2 * time.Millisecond)
+	}
+	if !settled {
+		tcpPolls = 150
+		tcpReadWait = time.Second
+		tcpPassivePolls = 150
+	}
+	if g < 0 {
+		g = 0
+	}
+	// the server's socket is gone: what the client writes now is answered by a reset, the next write fails
+	rel := 0
+	conn.SetWriteDeadline(time.Now().Add(2 * time.Second))
+	for i := 0; i < 400 && rel == 0; i++ {
+		if _, err := conn.Write([]byte{3}); err != nil {
+			if ne, ok := err.(net.Error); !ok || !ne.Timeout() {
+				rel = 1
+			}
+			break
+		}
+		time.Sleep(2 * time.Millisecond)
+	}
+	return fmt.Sprintf("ev=%s,ow=%s,eof=%d,g=%d,rel=%d", ev, ow, eof, g, rel)
+}
+
+// how long a passive client's connection waits for the owner to have seen its messages (2 ms apart)
+var tcpPassivePolls = 2500
 
 // sendCut: the client's byte stream, with a pause at every cut
 func (e *tcpEnv) sendCut(conn net.Conn, data []byte, cuts []int) {
@@ -267,13 +379,50 @@ var tcpReadWait = 15 * time.Second
 
 var tcpTails = []string{"", "", "", "09000001", "04", "0400", "040000", "0400000a4142", "ff", "04ffffff", "00000000", "06000000"}
 
+// tails of a passive client's stream: nothing, complete malformed headers (the reader ends the session), incomplete
+// headers / bodies (the reader stays parked in Read)
+var tcpPassiveTails = []string{"", "", "", "09000001", "00000000", "06000000", "04", "040000", "0400000a4142", "04ffffff"}
+
 func genTCP(x *hx.T, i int) string {
 	R := x.R
 	var ps []string
 	n := 0
 	mid := func() int { n++; return 1000 + n }
 	big := false
-	switch R.Intn(8) {
+	passive := R.Intn(4) == 0
+	if passive {
+		// the client keeps its side open and silent: a well-formed script (every data message must arrive), ended by the server
+		switch R.Intn(8) {
+		case 0:
+		case 1:
+			ps = append(ps, "hs1")
+		default:
+			ps = append(ps, "hs1", "ack")
+			for j, m := 0, R.Intn(6); j < m; j++ {
+				switch R.Intn(10) {
+				case 0:
+					ps = append(ps, "hb")
+				case 1:
+					ps = append(ps, "ot")
+				case 2:
+					if !big {
+						big = true
+						ps = append(ps, fmt.Sprintf("b%d", mid()))
+						break
+					}
+					fallthrough
+				default:
+					ps = append(ps, fmt.Sprintf("d%d", mid()))
+				}
+			}
+		}
+	}
+	sel := R.Intn(8)
+	if passive {
+		sel = -1
+	}
+	switch sel {
+	case -1: // chosen above
 	case 0: // nothing or garbage only
 	case 1:
 		ps = append(ps, "hs0")
@@ -302,10 +451,13 @@ func genTCP(x *hx.T, i int) string {
 			}
 		}
 	}
-	if R.Intn(10) == 0 {
+	if !passive && R.Intn(10) == 0 {
 		ps = append([]string{fmt.Sprintf("d%d", mid())}, ps...) // data before the handshake
 	}
 	tail := tcpTails[R.Intn(len(tcpTails))]
+	if passive {
+		tail = tcpPassiveTails[R.Intn(len(tcpPassiveTails))]
+	}
 	// the byte stream as the client sends it: packet boundaries, body lengths
 	var lens []string
 	var bounds []int // offsets of the packet starts and of the end of the last packet
@@ -355,6 +507,9 @@ func genTCP(x *hx.T, i int) string {
 		if len(ss) > 0 {
 			op += " cut=" + strings.Join(ss, ",")
 		}
+	}
+	if passive {
+		op += " passive=1"
 	}
 	return op
 }
@@ -548,6 +703,9 @@ func runTCP(x *hx.T, ops []string) {
 			x.Count(fmt.Sprintf("tcp:stream-pieces=%d", 1+len(strings.Split(cv, ","))))
 		} else {
 			x.Count("tcp:stream-pieces=1")
+		}
+		if pv, _ := hx.KV(ws, "passive"); pv == "1" {
+			x.Count("tcp:passive-client-ended-by-server")
 		}
 		if strings.HasPrefix(pk, "b") || strings.Contains(pk, ",b") {
 			x.Count("tcp:body-larger-than-socket-buffer")
